@@ -35,7 +35,7 @@ def plan(tier):
 def gen_case(rng: Rng, i: int, tier: str):
     r = rng.sub("k")
     fams = gen.COMPRESSORS
-    arc = rsess.gen_archive(rng.sub("arc"), tier, maxlen=120, want_dirs=False if r.chance(0.7) else None)
+    arc = rsess.gen_archive(rng.sub("arc"), tier, maxlen=120, want_dirs=False if r.chance(0.6) else True)
     # stratify the first session's chain over the compressor families and header modes
     if arc["sessions"]:
         s0 = arc["sessions"][0]
@@ -47,6 +47,11 @@ def gen_case(rng: Rng, i: int, tier: str):
             chain.append({"id": "AES"})
         s0["chain"] = chain
         s0["header"] = ["raw", "enc", "crypt"][(i // len(fams)) % 3] if s0.get("password") is not None else ["raw", "enc"][(i // len(fams)) % 2]
+        if r.chance(0.3):
+            # a tiny tree with symbolic links: their targets are only materialised when extracting to a directory
+            s0["ops"].insert(0, {"op": "writeall", "name": "lk" + gen.gen_component(r, "ascii"), "tree": [
+                {"path": "f", "kind": "file", "content": gen.gen_content(r, maxlen=60, minlen=1), "mode": 0o644, "mtime_ns": 1_400_000_000_000_000_000},
+                {"path": "l1", "kind": "link", "target": "f"}, {"path": "l2", "kind": "link", "target": "./f"[2:]}]})
         for s in arc["sessions"]:
             s["ops"] = s["ops"][:3]
             for op in s["ops"]:
@@ -110,6 +115,10 @@ def apply_fault(img: bytes, f):
     return bytes(d)
 
 
+def _short(v):
+    return (v[0], v[1] if not isinstance(v[1], bytes) else "%d bytes" % len(v[1]))
+
+
 def _region(built, off):
     ref = built.ref
     if off < 32:
@@ -137,7 +146,7 @@ def _open(py7zr, img, kind, password):
     return z, seams
 
 
-def evaluate(py7zr, img, kind, password, model_map, budget):
+def evaluate(py7zr, img, kind, password, model_map, budget, tree_model=None, outdir=None):
     """Returns (extract outcome, testzip outcome, test outcome, steps); outcome = 'error' | 'ok' | 'wrong:<why>' | 'spin' | verdict."""
     steps = 0
     out = []
@@ -150,7 +159,25 @@ def evaluate(py7zr, img, kind, password, model_map, budget):
                     steps += sc.steps
                     return ("error", "error", "error", steps, False)
                 try:
-                    if seq == "extract":
+                    if seq == "extract" and tree_model is not None:
+                        # archives with symbolic links are extracted to a directory: link targets only exist on that path
+                        import shutil as _sh
+
+                        _sh.rmtree(outdir, ignore_errors=True)
+                        os.makedirs(outdir)
+                        z.extractall(path=outdir)
+                        got_tree = rsess.snapshot_tree(outdir)
+                        bad = None
+                        for k_, v_ in got_tree.items():
+                            if k_ not in tree_model:
+                                bad = "unknown path %r created" % k_
+                                break
+                            if v_ != tree_model[k_]:
+                                bad = "%r extracted as %r, original %r" % (k_, _short(v_), _short(tree_model[k_]))
+                                break
+                        out.append("ok" if bad is None else "wrong:" + bad)
+                        out_full = bad is None and set(got_tree) == set(tree_model)
+                    elif seq == "extract":
                         names = z.getnames()
                         fac = rw.make_factory()
                         z.extractall(factory=fac)
@@ -210,7 +237,14 @@ def run_case(case):
         res["violations"].append({"fp": {"oracle": oracle, "site": site, "class": c}, "detail": detail, "sub": sub})
 
     # intact archive: no damage reported
-    ex, tz, ts, st, full = evaluate(py7zr, img, case["open"], built.password, model_map, budget * 20)
+    tree_model = rsess.expected_tree(built.model) if any(m.kind == "symlink" for m in built.model) else None
+    outdir = None
+    if tree_model is not None:
+        from simkit import driver as _d
+
+        outdir = os.path.join(_d.worker_scratch(), "c04out")
+        res["probes"]["extracted_to_directory(symlinks)"] = 1
+    ex, tz, ts, st, full = evaluate(py7zr, img, case["open"], built.password, model_map, budget * 20, tree_model, outdir)
     res["sim_steps"] += st
     if ex != "ok" or not full:
         viol("intact_archive_rejected", "extractall", "pristine archive: extract outcome %r" % (ex,), None)
@@ -233,7 +267,7 @@ def run_case(case):
         if D == img:
             continue
         n_diff += 1
-        ex, tz, ts, st, full = evaluate(py7zr, D, case["open"], built.password, model_map, budget)
+        ex, tz, ts, st, full = evaluate(py7zr, D, case["open"], built.password, model_map, budget, tree_model, outdir)
         res["sim_steps"] += st
         region = _region(built, f[1] if f[0] != "burst" else f[1] // 8) if f[0] not in ("extend",) else "beyond_end"
         if "spin" in (ex, tz, ts):
@@ -250,6 +284,11 @@ def run_case(case):
         else:
             harmless += 1
         log.append((f, ex if isinstance(ex, str) else "v", tz, ts))
+    if outdir:
+        import shutil as _sh
+
+        _sh.rmtree(outdir, ignore_errors=True)
+    res["probes"].setdefault("extracted_to_directory(symlinks)", 0)
     res["distinct_n"] = n_diff
     res["extra"]["harmless_faults"] = harmless
     res["probes"]["multi_folder_archive"] = 1 if built.nfolders > 1 else 0
